@@ -356,6 +356,14 @@ pub fn check(id: &str, tier: Tier) -> i32 {
       bounds.push(json!({"kind": "non-SC executions: clone/drop programs", "preemption_bound": wb, "stale_reads": ws, "harnesses": count}));
     }
   }
+  // the non-SC exploration must not be vacuous and must respect release/acquire: litmus tests on the header atomics
+  match litmus() {
+    Ok(v) => run.set("non_sc_litmus_selftest", v),
+    Err(m) => {
+      eprintln!("machinery: self-test of the non-SC exploration failed: {}", m);
+      return 2;
+    }
+  }
   let execs = AtomicU64::new(0);
   let events = AtomicU64::new(0);
   let capped = AtomicU64::new(0);
@@ -571,6 +579,21 @@ pub fn c15_concurrent(run: &Run, thorough: bool) {
           items.push((Harness { fl, unify, min_seg: 8, cap: if unify { 256 } else { 225 }, shape, progs: vec![act.clone(), vec![Probe]], own_arenas: false, leave, odd, reserved: 0 }, if thorough { 4 } else { 3 }));
           if thorough {
             items.push((Harness { fl, unify, min_seg: 8, cap: if unify { 256 } else { 225 }, shape, progs: vec![act.clone(), vec![Probe], vec![B(300)]], own_arenas: false, leave, odd, reserved: 0 }, 2));
+          }
+        }
+      }
+    }
+  }
+  // two allocating threads race for the last bytes (every flavour of call, room for exactly one of them); each
+  // looks at the cursor, the slices and the readers afterwards, and a third thread does so all along
+  let racers: Vec<Vec<TOp>> = vec![vec![B(8), Probe], vec![U64, Probe], vec![AB(0), Probe], vec![T16, Probe], vec![B(9), Probe]];
+  for fl in [Fl::Optimistic, Fl::None] {
+    for (leave, odd) in [(8u32, 0u8), (12, 0), (16, 5)] {
+      for i in 0..racers.len() {
+        for j in i..racers.len() {
+          items.push((Harness { fl, unify: true, min_seg: 8, cap: 256, shape: 0, progs: vec![racers[i].clone(), racers[j].clone()], own_arenas: false, leave, odd, reserved: 0 }, if thorough { 4 } else { 3 }));
+          if thorough || (i == j && leave == 8) {
+            items.push((Harness { fl, unify: true, min_seg: 8, cap: 256, shape: 0, progs: vec![racers[i].clone(), racers[j].clone(), vec![Probe]], own_arenas: false, leave, odd, reserved: 0 }, 2));
           }
         }
       }
